@@ -525,7 +525,7 @@ func ruleSeqhash(c *Ctx, prop string) {
 		var diffs []string
 		for k, v := range orc {
 			if comp[k] != v {
-				diffs = append(diffs, fmt.Sprintf("%c->%c (want %c)", k, comp[k], v))
+				diffs = append(diffs, fmt.Sprintf("%c->%s (want %c)", k, letterOrNone(comp[k]), v))
 			}
 		}
 		sort.Strings(diffs)
@@ -551,7 +551,7 @@ func checkComplementOracleOn(c *Ctx, rule, letters string) {
 			continue
 		}
 		if comp[k] != v {
-			diffs = append(diffs, fmt.Sprintf("%c->%c (want %c)", k, comp[k], v))
+			diffs = append(diffs, fmt.Sprintf("%c->%s (want %c)", k, letterOrNone(comp[k]), v))
 		}
 	}
 	sort.Strings(diffs)
@@ -1200,4 +1200,12 @@ func lastPos(b *ssa.BasicBlock) token.Pos {
 		}
 	}
 	return token.NoPos
+}
+
+// letterOrNone: a table entry as it is printed in a report ("no entry" for a letter the table does not have).
+func letterOrNone(r rune) string {
+	if r == 0 {
+		return "no entry"
+	}
+	return string(r)
 }
